@@ -327,7 +327,7 @@ class MiscMonitors:
         if not (A.unconfirmed[0].native and B.unconfirmed[0].native):
             self.probes["C17.pairs_not_native"] += 1
             return "not-native"
-        self.c17_pair(A.unconfirmed[0].step, B.unconfirmed[0].step, Da, "probe")
+        self.guard("C17", self.c17_pair, A.unconfirmed[0].step, B.unconfirmed[0].step, Da, "probe")
         return "judged"
 
     def c17_round(self, ev):
@@ -352,7 +352,7 @@ class MiscMonitors:
         n = 0
         for i in range(len(firsts)):
             for j in range(i + 1, len(firsts)):
-                self.c17_pair(firsts[i], firsts[j], D, "round")
+                self.guard("C17", self.c17_pair, firsts[i], firsts[j], D, "round")
                 n += 1
         return "pairs:%d" % n
 
@@ -406,19 +406,19 @@ class MiscMonitors:
     def on_rebased(self, client, tr, rest, remote, new_unc, judged, base_version, pre_doc, conf_after,
                    tainted):
         sim = self.sim
-        self.c04_rebased(client, tr, new_unc, conf_after)
-        self.c08_rebase(client, tr, rest, remote, new_unc, judged, pre_doc, conf_after)
+        self.guard("C04", self.c04_rebased, client, tr, new_unc, conf_after)
+        self.guard("C08", self.c08_rebase, client, tr, rest, remote, new_unc, judged, pre_doc, conf_after)
         if rest and remote:
             # C17's quantifier: steps emitted by high-level operations on this very document
             if rest[0].native and sim.r3[base_version + 1].get("native"):
-                self.c17_pair(rest[0].step, remote[0], rest[0].doc_before, "rebase")
+                self.guard("C17", self.c17_pair, rest[0].step, remote[0], rest[0].doc_before, "rebase")
             else:
                 self.probes["C17.pairs_not_native"] += 1
         self.on_transform(client, tr, None, [{"op": "rebase"}], exact_undo=False)
-        self.on_pair(pre_doc, tr.doc, "rebase")
+        self.guard("C20", self.on_pair, pre_doc, tr.doc, "rebase")
 
     def on_remote_applied(self, client, v0, v1, tr):
-        self.c08_transform(tr)
+        pass
 
     def on_confirmed(self, client, v0, v1):
         pass
